@@ -70,6 +70,11 @@ const arr_real& HilbertFilter::impz() const {
 arr_cmplx hilbert(const arr_real& x) {
     const int n = x.size();
     arr_cmplx r = fft(x) * 2;
+    //DC and (for even n) Nyquist bins are their own mirror images: weight 1, not 2
+    r[0] = r[0] / 2;
+    if (n % 2 == 0) {
+        r[n / 2] = r[n / 2] / 2;
+    }
     r.slice(n / 2 + 1, n) = 0;
     r = ifft(r);
     return r;
